@@ -397,6 +397,14 @@ func (rf *ReplicaFollower) preSync(leaderSp StartPoint) (sp StartPoint, err erro
 	rf.logger.Infof("gap : leader(%v), follower(%v)", leaderSp, sp)
 
 	if sp.IsInitial() || !sp.IsValid() || sp.RunId != leaderSp.RunId {
+		// the local copy belongs to another run id : the two histories are not known to join,
+		// drop it instead of relabelling it (SetRunId renames the directory / relabels the memory)
+		if local := rf.channel.RunId(); local != "" && local != leaderSp.RunId {
+			if err = rf.channel.DelRunId(local); err != nil {
+				err = errors.Join(ErrRestart, err)
+				return
+			}
+		}
 		if err = rf.channel.SetRunId(leaderSp.RunId); err != nil {
 			err = errors.Join(ErrRestart, err)
 			return
